@@ -15,7 +15,7 @@
    ADD_PROVIDER send). *)
 From Coq Require Import List NArith Bool.
 From V.gen Require Consts.
-From V.C16 Require Import Model Proofs Obl.
+From V.C16 Require Import Model Proofs Obl Bound.
 Import ListNotations.
 Open Scope N_scope.
 
@@ -121,6 +121,42 @@ Theorem C16_quorum_honest :
     (forall p, In p S -> In (q, p) (put_sends g (st0 m) es) /\ In p targets).
 Proof. exact quorum_honest_put. Qed.
 Print Assumptions C16_quorum_honest.
+
+(* the measure: M = sum over live queries of (5 * C15's lookup measure + queued records + 5k + 2 | 5 * targets + 2 |
+   pending + 1) + 4 per queued dial action + 3 per pending substream action + 2 / 1 per executor
+   future.  No event other than new work (command, inbound substream) raises it; every productive event
+   (a served query with an action, the answer to a queued dial / pending substream / future) lowers it *)
+Theorem C16_step_measure :
+  forall U g s e,
+  BE U g s -> ev_in_U U e -> is_input e = false ->
+  BE U g (fst (fst (step g s e))) /\ (M U g (fst (fst (step g s e))) <= M U g s)%nat /\
+  (productive s e -> (M U g (fst (fst (step g s e))) < M U g s)%nat).
+Proof. exact step_M. Qed.
+Print Assumptions C16_step_measure.
+
+(* when nothing productive is enabled, nothing is owed and the engine is drained *)
+Theorem C16_stuck_idle :
+  forall s, NoDup (map fst (eng s)) -> stuck s -> idle s /\ quiescent s = true.
+Proof. exact stuck_idle. Qed.
+Print Assumptions C16_stuck_idle.
+
+(* fair termination with an explicit bound: after ANY history es0 (peers drawn from a universe U of
+   n peers), every schedule es1 without new work in which the drain loop and the environment keep
+   answering what is owed has at most budget(n, k, es0) events — (10 n + 5 k + 2) per command,
+   (5 |peers| + 2) per put_record_to_peers, 2 per inbound substream — and when it ends because
+   nothing productive is enabled, every started operation has exactly one terminal event.  The
+   premises `idle` / `quiescent` of C16_terminates are no longer assumed: they follow. *)
+Theorem C16_fair_terminates :
+  forall U g m es0 es1 q,
+  1 <= g_alpha g -> fresh_ids [] (es0 ++ es1) -> cmds_ok g es0 -> evs_in_U U es0 -> evs_in_U U es1 ->
+  let s0 := fst (run g (st0 m) es0) in
+  fair_run g s0 es1 ->
+  (length es1 <= budget (length U) g es0)%nat /\
+  (stuck (fst (run g s0 es1)) ->
+   terminals q (snd (run g (st0 m) (es0 ++ es1))) = started q (es0 ++ es1) /\
+   (started q (es0 ++ es1) <= 1)%nat).
+Proof. exact fair_terminates. Qed.
+Print Assumptions C16_fair_terminates.
 
 (* the shipped parallelism factor and executor timeouts satisfy what is assumed above *)
 Theorem C16_default_config :
